@@ -361,8 +361,14 @@ func (x *router) dispatchToRoutees(ctx *ReceiveContext, msg any, routees []*PID)
 func (x *router) routeByStrategy(ctx *ReceiveContext, msg any, routees []*PID) {
 	switch x.routingStrategy {
 	case RoundRobinRouting:
-		n := atomic.AddUint32(&x.roundRobinNext, 1)
-		routee := routees[(int(n)-1)%len(routees)]
+		// keep the counter reduced modulo the pool size: a free-running uint32
+		// wraps to 0 after 2^32 messages, which made (int(n)-1)%len negative
+		// (index panic, message dropped) and breaks the cyclic order whenever
+		// the pool size does not divide 2^32
+		size := uint32(len(routees))
+		idx := atomic.LoadUint32(&x.roundRobinNext) % size
+		atomic.StoreUint32(&x.roundRobinNext, (idx+1)%size)
+		routee := routees[idx]
 		ctx.Tell(routee, msg)
 	case RandomRouting:
 		routee := routees[rand.IntN(len(routees))] //nolint:gosec
@@ -612,9 +618,13 @@ func (x *router) availableRoutees() ([]*PID, bool) {
 	for _, routee := range x.routeesMap {
 		if !routee.IsRunning() {
 			delete(x.routeesMap, routee.ID())
+			continue
 		}
 		routees = append(routees, routee)
 	}
+	// map iteration order is random: give positional strategies (round-robin)
+	// a stable enumeration of the live routees
+	sort.Slice(routees, func(i, j int) bool { return routees[i].ID() < routees[j].ID() })
 	return routees, len(routees) > 0
 }
 
